@@ -11,6 +11,7 @@ import CopVerif.Model.RootFind
   | `lin`   | `p * d`                                  | `- *`                 |
   | `aff`   | `p * x - q`  (root `q/p`)                | `* -`                 |
   | `cubic` | `p * (d*d*d)` (flat root)                | `- *`                 |
+  | `quint` | `p * (d*d*d*d*d)` (flatter root)         | `- *`                 |
   | `sat`   | `p * d / (1 + |d|)` (saturating)         | `- * / + abs`         |
   | `kink`  | `d` if `d < 0` else `p * d`              | `- * <`               |
   | `expm`  | `exp(p * d) - 1`                         | `exp` (libm)          |
@@ -30,6 +31,7 @@ def specFn (kind : String) (p q x : Float) : Float :=
   | "lin" => p * (x - q)
   | "aff" => p * x - q
   | "cubic" => let d := x - q; p * (d * d * d)
+  | "quint" => let d := x - q; p * (d * d * d * d * d)
   | "sat" => let d := x - q; p * d / (1.0 + Float.abs d)
   | "kink" => let d := x - q; if d < 0.0 then d else p * d
   | "expm" => Float.exp (p * (x - q)) - 1.0
